@@ -164,17 +164,55 @@ def set_table(table):
     sf.set_semantic_constraints(table if isinstance(table, str) else dict(table))
 
 
+class CallTimeout(BaseException):
+    """Raised by the alarm when a library call exceeds its time budget (non-termination is a violation)."""
+
+
+def _on_alarm(signum, frame):
+    raise CallTimeout()
+
+
+CALL_BUDGET = float(os.environ.get("VERIF_CALL_BUDGET", "120"))
+
+
+class time_limit:
+    """Bound one library call (main thread only; a no-op elsewhere)."""
+
+    def __init__(self, seconds=None):
+        self.seconds = seconds or globals()["CALL_BUDGET"]
+        self.armed = False
+
+    def __enter__(self):
+        import signal
+        import threading
+        if threading.current_thread() is threading.main_thread():
+            self.old = signal.signal(signal.SIGALRM, _on_alarm)
+            signal.setitimer(signal.ITIMER_REAL, self.seconds)
+            self.armed = True
+        return self
+
+    def __exit__(self, *a):
+        import signal
+        if self.armed:
+            signal.setitimer(signal.ITIMER_REAL, 0)
+            signal.signal(signal.SIGALRM, self.old)
+        return False
+
+
 def call_decoder(s, compat=False, attribute=False):
-    """Returns (kind, value) with kind in ok / DecoderError / <other exception type>."""
+    """Returns (kind, value) with kind in ok / DecoderError / <other exception type> / Timeout."""
     import warnings
     sf = selfies_mod()
     try:
-        with warnings.catch_warnings():
-            warnings.simplefilter("ignore")
-            r = sf.decoder(s, compatible=compat, attribute=attribute)
+        with time_limit():
+            with warnings.catch_warnings():
+                warnings.simplefilter("ignore")
+                r = sf.decoder(s, compatible=compat, attribute=attribute)
         return ("ok", r)
     except sf.DecoderError:
         return ("DecoderError", "")
+    except CallTimeout:
+        return ("Timeout(did not terminate within %gs)" % CALL_BUDGET, "")
     except Exception as e:        # any other type is a totality violation (C08)
         return (type(e).__name__, "")
 
@@ -437,7 +475,10 @@ def run_table_space(keypool, cappool, maxkeys, timeout=1200):
 def call_encoder(s, strict=True, attribute=False):
     sf = selfies_mod()
     try:
-        return ("ok", sf.encoder(s, strict=strict, attribute=attribute), "")
+        with time_limit():
+            return ("ok", sf.encoder(s, strict=strict, attribute=attribute), "")
+    except CallTimeout:
+        return ("Timeout(did not terminate within %gs)" % CALL_BUDGET, "", "")
     except sf.EncoderError as e:
         msg = str(e)
         why = ("parse" if "failed to parse" in msg else "kekulize" if "kekulization failed" in msg
